@@ -95,7 +95,7 @@ def has_mentions(flat):
     return any(k == p or k.startswith(p + ".") for k in flat)
 
 
-def rule_applies(kind, rule, flat, ctx, strict):
+def rule_applies(kind, rule, flat, ctx, strict, id_glob=False):
     if not rule["enabled"]:
         return False
     if rule["rule_id"] in LEGACY_MENTION_RULES and has_mentions(flat):
@@ -105,20 +105,28 @@ def rule_applies(kind, rule, flat, ctx, strict):
     if kind == "content":
         return condition({"kind": "event_match", "key": "content.body", "pattern": rule["pattern"]},
                          flat, ctx, strict)
+    # room / sender rules: "the rule_id is the room ID / user ID it affects". Read literally that is
+    # equality; implementations evaluate it as an implicit event_match condition, i.e. as a
+    # case-insensitive glob (id_glob=True). The readings differ only for ids that are not identical.
     if kind == "room":
+        if id_glob:
+            return glob.glob_match(rule["rule_id"].lower(), ctx["room_id"].lower())
         return rule["rule_id"] == ctx["room_id"]
     if kind == "sender":
-        return rule["rule_id"] == get_str(flat, "sender")
+        sender = get_str(flat, "sender")
+        if id_glob and sender is not None:
+            return glob.glob_match(rule["rule_id"].lower(), sender.lower())
+        return rule["rule_id"] == sender
     return False
 
 
-def get_match(ruleset, event, ctx, strict):
+def get_match(ruleset, event, ctx, strict, id_glob=False):
     flat = flatten(event)
     if get_str(flat, "sender") == ctx["user_id"]:
         return None
     for kind in KIND_ORDER:
         for rule in ruleset.get(kind, []):
-            if rule_applies(kind, rule, flat, ctx, strict):
+            if rule_applies(kind, rule, flat, ctx, strict, id_glob):
                 return (kind, rule["rule_id"])
     return None
 
